@@ -9,7 +9,7 @@ vars == <<c, done>>
 Grids == {<<16, 16>>, <<17, 16>>, <<17, 17>>, <<16, 24>>}
 Extents == {<<8, 8>>, <<8, 12>>, <<6, 18>>, <<18, 6>>}
 Energies == {80, 300}
-CutoffClasses == {"sub_pixel", "one_pixel", "mid", "mid_b", "near_nyquist"}
+CutoffClasses == {"sub_pixel", "one_pixel", "mid", "mid_b", "near_nyquist", "beyond_axis_nyquist"}   \* the last: above the largest on-axis angle, below the corner angle
 Spreads == {0, 1, 2}          \* index into the harness' table of focal / angular spreads
 AberrationSets == {"none", "defocus", "cs_defocus", "astigmatism", "coma"}
 Init == /\ \/ \E g \in Grids, x \in Extents, e \in Energies, cc \in CutoffClasses, s \in BOOLEAN :
@@ -18,7 +18,7 @@ Init == /\ \/ \E g \in Grids, x \in Extents, e \in Energies, cc \in CutoffClasse
                 c = [kind |-> "temporal", gpts |-> g, extent |-> x, energy |-> e, cutoff |-> "mid", soft |-> TRUE, spread |-> sp, ab |-> "none"]
            \/ \E g \in Grids, x \in Extents, e \in Energies, sp \in Spreads, a \in AberrationSets :
                 c = [kind |-> "spatial", gpts |-> g, extent |-> x, energy |-> e, cutoff |-> "mid", soft |-> TRUE, spread |-> sp, ab |-> a]
-           \/ \E g \in Grids, x \in {<<8, 8>>, <<8, 12>>, <<6, 18>>}, cc \in CutoffClasses \ {"mid_b"}, s \in BOOLEAN, sp \in Spreads, a \in AberrationSets :
+           \/ \E g \in Grids, x \in {<<8, 8>>, <<8, 12>>, <<6, 18>>}, cc \in CutoffClasses \ {"mid_b", "beyond_axis_nyquist"}, s \in BOOLEAN, sp \in Spreads, a \in AberrationSets :
                 c = [kind |-> "ctf", gpts |-> g, extent |-> x, energy |-> 300, cutoff |-> cc, soft |-> s, spread |-> sp, ab |-> a]
         /\ done = FALSE
 Next == ~done /\ done' = TRUE /\ UNCHANGED c
